@@ -406,6 +406,25 @@ def check(cid, tier='quick', verif_seed=0, runs=None, workers=None,
         'violations': n_unknown,
     }
     os.makedirs(EVIDENCE, exist_ok=True)
+    # keep a summary of the last run of the *other* tier in the file (the
+    # file itself always describes the run that wrote it)
+    try:
+        with open(os.path.join(EVIDENCE, cid + '.json')) as f:
+            prev = json.load(f)
+        if prev.get('tier') != tier:
+            pc = prev.get('coverage', {})
+            other = {k: prev.get(k) for k in ('tier', 'seed', 'wall_s',
+                                              'violations')}
+            other.update({k: pc.get(k) for k in (
+                'runs', 'evaluations', 'distinct_nontrivial',
+                'runs_skipped_by_wall_cap', 'sim_time_s', 'faults_fired',
+                'harness_errors', 'known_findings_seen')})
+        else:
+            other = prev.get('coverage', {}).get('other_tier_last_run')
+        if other:
+            ev['coverage']['other_tier_last_run'] = other
+    except (OSError, ValueError):
+        pass
     with open(os.path.join(EVIDENCE, cid + '.json'), 'w') as f:
         json.dump(ev, f, indent=1, sort_keys=True, default=_json_default)
         f.write('\n')
